@@ -30,7 +30,7 @@ import (
 // operations
 
 type c13Op struct {
-	Kind string // model command: an dn sn da ai af afhw dd sh sw shp swp ac | nwt inds fams bp if sp pa ch hu wi fc | dump warn foreign inert
+	Kind string // model command: an dn sn da ai af afhw dd ds sh sw shp swp ac | nwt inds fams bp if sp pa ch hu wi fc | dump warn foreign inert
 	Sub  string // which real read a warn/foreign/inert stands for
 	Path []int  // node position for an/dn/sn/nwt
 	A, B int    // root indices / child index (-1 = nil)
@@ -63,6 +63,12 @@ func (o c13Op) req() string {
 		return s
 	case "nwt":
 		return fmt.Sprintf("nwt %s %s", c13Path(o.Path), hexs(o.Tag))
+	case "ds":
+		s := fmt.Sprintf("ds %d", len(o.Idx))
+		for _, i := range o.Idx {
+			s += " " + strconv.Itoa(i)
+		}
+		return s
 	case "da":
 		return fmt.Sprintf("da %s %s %s", hexs(o.Tag), hexs(o.Val), hexs(o.Ptr))
 	case "ai", "af", "bp":
@@ -100,6 +106,8 @@ func (o c13Op) String() string {
 		return fmt.Sprintf("doc.AddFamilyWithHusbandAndWife(%q, root#%d, root#%d)", o.Ptr, o.A, o.B)
 	case "dd":
 		return fmt.Sprintf("doc.DeleteNode(root#%d)", o.A)
+	case "ds":
+		return fmt.Sprintf("doc.SetNodes(roots %v)", o.Idx)
 	case "sh":
 		return fmt.Sprintf("root#%d.SetHusband(root#%d)", o.A, o.B)
 	case "sw":
@@ -137,6 +145,8 @@ func (o c13Op) apiName() string {
 		return "Document.AddFamilyWithHusbandAndWife"
 	case "dd":
 		return "Document.DeleteNode"
+	case "ds":
+		return "Document.SetNodes"
 	case "sh":
 		if o.B < 0 {
 			return "FamilyNode.SetHusband(nil)"
@@ -593,6 +603,16 @@ func (d *c13Doc) apply(o c13Op) (obs string) {
 			return "bad"
 		}
 		doc.AddFamilyWithHusbandAndWife(o.Ptr, h, w)
+	case "ds":
+		var nk gedcom.Nodes
+		for _, i := range o.Idx {
+			r := d.root(i)
+			if r == nil {
+				return "bad"
+			}
+			nk = append(nk, r)
+		}
+		doc.SetNodes(nk)
 	case "dd":
 		if r := d.root(o.A); r != nil {
 			doc.DeleteNode(r)
@@ -978,6 +998,15 @@ func (d *c13Doc) randomOp(r *Rand, fresh *int) c13Op {
 			if len(roots) == 0 {
 				continue
 			}
+			if r.Chance(1, 6) { // replace the root list by a sub-permutation of itself
+				var idx []int
+				for _, i := range r.Perm(len(roots)) {
+					if r.Chance(4, 5) {
+						idx = append(idx, i)
+					}
+				}
+				return c13Op{Kind: "ds", Idx: idx}
+			}
 			k := r.Intn(len(roots))
 			if r.Chance(2, 3) && len(inds)+len(fams) > 0 {
 				k = pick(append(append([]int{}, inds...), fams...))
@@ -1043,6 +1072,7 @@ var c13Alphabet = []c13Op{
 }
 
 var c13ThoroughExtra = []c13Op{
+	{Kind: "ds", Idx: []int{0, 2, 3}},  // doc.SetNodes(all but I1)
 	{Kind: "dn", Path: []int{3}, A: 0}, // F1.DeleteNode(first child)
 	{Kind: "shp", A: 3, Ptr: "I2"},     // F1.SetHusbandPointer(I2)
 	{Kind: "dd", A: 1},                 // doc.DeleteNode(I1)
@@ -1057,6 +1087,10 @@ var c13Directed = [][]c13Op{
 	// Families() / NodeByPointer after Document.DeleteNode
 	{{Kind: "dd", A: 3}},
 	{{Kind: "dd", A: 1}},
+	// Families() / NodeByPointer / an individual's spouses after Document.SetNodes
+	{{Kind: "ds"}},
+	{{Kind: "ds", Idx: []int{3, 1}}},
+	{{Kind: "ds", Idx: []int{0, 1, 2}}},
 	// an individual's families after AddChild / SetWife / SetHusbandPointer
 	{{Kind: "ac", A: 3, B: 1}},
 	{{Kind: "sw", A: 3, B: 2}},
@@ -1187,7 +1221,7 @@ func c13Publish(c *Ctx, text string, history []c13Step) {
 
 func init() {
 	runners["C13"] = func(c *Ctx) {
-		c.Rule = "histories of public-API edits and reads on one document; after every op every view named in the property is dumped (twice more after the global node cache was reset by the oracle's re-decode, so caches are warm at the next edit). Streams: exhaustive sequences over a 9-op alphabet on a 2-person/1-family document (quick: all sequences of <= 4 ops; thorough: <= 5 ops, plus <= 3 ops over a 12-op alphabet), random histories of 10-200 ops on random family graphs, every read-only operation inserted at every position of base histories, publish in a child process; distinct = (op kind, did a view change, rejected?)"
+		c.Rule = "histories of public-API edits and reads on one document; after every op every view named in the property is dumped (twice more after the global node cache was reset by the oracle's re-decode, so caches are warm at the next edit). Streams: exhaustive sequences over a 9-op alphabet on a 2-person/1-family document (quick: all sequences of <= 4 ops; thorough: <= 5 ops, plus <= 3 ops over a 13-op alphabet), random histories of 10-200 ops on random family graphs, every read-only operation inserted at every position of base histories, publish in a child process; distinct = (op kind, did a view change, rejected?)"
 		// facts that could not be located are tied by correspondence only
 		if _, facts, err := c13Facts(); err == nil {
 			var un []string
@@ -1254,7 +1288,7 @@ func init() {
 		}
 		rec(nil)
 		c.Count(fmt.Sprintf("stream=exhaustive<=%d", maxLen))
-		if !c.Quick() { // the three extra ops, up to length 3 over the 12-op alphabet
+		if !c.Quick() { // the four extra ops, up to length 3 over the 13-op alphabet
 			alphabet = append(append([]c13Op{}, c13Alphabet...), c13ThoroughExtra...)
 			maxLen = 3
 			rec(nil)
